@@ -30,6 +30,16 @@ pub struct NeighbourPool {
     pub peak_query: AtomicU64,
 }
 
+thread_local! {
+    /// the pool of the run in progress on this (simulation) thread
+    static CURRENT: std::cell::RefCell<std::sync::Weak<NeighbourPool>> = const { std::cell::RefCell::new(std::sync::Weak::new()) };
+}
+
+/// Bytes the query of the current run holds in its pool right now (the neighbour excluded).
+pub fn current_query_reserved() -> Option<usize> {
+    CURRENT.with(|c| c.borrow().upgrade().map(|p| p.query_reserved()))
+}
+
 impl NeighbourPool {
     pub fn new(kind: &str, limit: usize, script: Vec<(u64, usize, Option<u64>)>) -> Arc<Self> {
         let inner: Arc<dyn MemoryPool> = match kind {
@@ -42,7 +52,7 @@ impl NeighbourPool {
         } else {
             Some(MemoryConsumer::new("noisy-neighbour").register(&inner))
         };
-        Arc::new(NeighbourPool {
+        let pool = Arc::new(NeighbourPool {
             inner,
             neighbour: Mutex::new(neighbour),
             script,
@@ -52,7 +62,9 @@ impl NeighbourPool {
             refused: AtomicU64::new(0),
             granted: AtomicU64::new(0),
             peak_query: AtomicU64::new(0),
-        })
+        });
+        CURRENT.with(|c| *c.borrow_mut() = Arc::downgrade(&pool));
+        pool
     }
     fn neighbour_size(&self) -> usize {
         self.neighbour.lock().as_ref().map(|r| r.size()).unwrap_or(0)
